@@ -9,7 +9,7 @@ import collections
 import importlib
 import re
 
-PROP_GROUPS = {'C16': ['concat'], 'C12': ['sortkey'], 'C04': ['driver'], 'C15': ['fields', 'delete_schema'], 'C01': ['flow'], 'C07': ['flow', 'ejson', 'ejson_hook'], 'C11': ['join'], 'C02': ['join'], 'C10': ['matcher'], 'C14': ['handlers', 'vloop'], 'C17': ['rows'], 'C13': ['load']}
+PROP_GROUPS = {'C16': ['concat'], 'C12': ['sortkey'], 'C04': ['driver'], 'C15': ['fields', 'delete_schema', 'select_schema'], 'C01': ['flow'], 'C07': ['flow', 'ejson', 'ejson_hook'], 'C11': ['join'], 'C02': ['join'], 'C10': ['matcher'], 'C14': ['handlers', 'vloop'], 'C17': ['rows'], 'C13': ['load']}
 
 
 # ---------------------------------------------------------------- encoding
@@ -102,6 +102,7 @@ def sort_list(c):
 
 # the order in which a Python set is enumerated is unspecified: `list(<set>)` is compared as a sorted list
 post_model = {'agg_set_finaliser': sort_list,
+              'select_schema_loop': lambda c: ['list'] + [[kv[1] for kv in f[1:] if kv[0] == ['str', 'name']][0] for f in c[1:]] if isinstance(c, list) and c and c[0] == 'list' else c,
               'delete_schema_loop': lambda c: ['list'] + [[kv[1] for kv in f[1:] if kv[0] == ['str', 'name']][0] for f in c[1:]] if isinstance(c, list) and c and c[0] == 'list' else c,
               'ejson_default': lambda c: [c[0], [c[1][0], ['list'] + sorted(c[1][1][1:], key=repr)]] if isinstance(c, list) and c and c[0] == 'dict' and len(c) > 1 and c[1][0] == ['str', 'type{set}'] else c}
 
@@ -423,6 +424,46 @@ def run_delete_schema(ctx, b, n):
               'env': [['new_fields', to_pv([])], ['matched', {'t': 'set', 'v': []}], ['field_res', to_pv(pobjs)],
                       ['schema_fields', to_pv([{'name': nm, 'type': 'string'} for nm in names])]]}
         b.add_op(op, 'delete_schema_loop', real, post=lambda v: v, case=[names, pats])
+    b.flush()
+
+
+def run_select_schema(ctx, b, n):
+    """the schema loops of select_fields: the real step on a one-resource package against the translated loops"""
+    import re as _re
+    from dataflows import Flow
+    import dataflows as DF
+    from . import canon
+    from .common import quiet
+    rng = ctx.rng('pycorr-select-schema')
+    pool = ['a', 'ab', 'b', 'a.b', 'id', 'id_x', 'x']
+    for _ in range(n):
+        names = rng.sample(pool, rng.randint(1, 5))
+        pats = [rng.choice(['a', 'a.*', 'id.*', '.*b', 'x|a', 'zz', 'a.b', 'b', 'id', '.*']) for _ in range(rng.randint(1, 4))]
+        regex = rng.random() < 0.7
+        desc = canon.make_descriptor([{'name': 'r', 'fields': [(nm, 'string') for nm in names]}])
+        try:
+            with quiet():
+                dp = Flow(canon.pkg_source(desc, [[]]), DF.select_fields(list(pats), regex=regex)).datastream().dp
+            real = {'ok': ['list'] + [['str', f['name']] for f in dp.descriptor['resources'][0]['schema']['fields']]}
+        except AssertionError:
+            real = {'ok': ['list']}          # nothing selected: the assertion behind the loops fires
+        except Exception as e:  # noqa
+            real = {'ok': ['list']} if isinstance(getattr(e, 'cause', None), AssertionError) else {'err': 'user'}
+        ext = []
+        for p_ in set(pats):
+            inner = p_ if regex else _re.escape(p_)
+            if not regex:
+                ext.append(['re.escape', [to_pv(p_)], to_pv(inner)])
+            pat = '^{}$'.format(inner)
+            ext.append(['.format', [to_pv('^{}$'), to_pv(inner)], to_pv(pat)])
+            c = _re.compile(pat)
+            for nm in names:
+                ext.append(['.match', [{'t': 're', 'v': pat}, to_pv(nm)], opq('match', nm) if c.match(nm) else to_pv(None)])
+        op = {'op': 'pyeval', 'fn': 'select_schema_loop', 'mode': 'value', 'args': [], 'ext': ext, 'want': 'new_fields',
+              'env': [['new_fields', to_pv([])], ['dp_fields', to_pv({nm: {'name': nm, 'type': 'string'} for nm in names})],
+                      ['configuration', {'t': 'dict', 'v': [[to_pv('r'), {'t': 'set', 'v': []}]]}], ['resource', to_pv({'name': 'r'})],
+                      ['regex', to_pv(regex)], ['fields', to_pv(pats)]]}
+        b.add_op(op, 'select_schema_loop', real, post=lambda v: v, case=[names, pats, regex])
     b.flush()
 
 
@@ -1057,7 +1098,7 @@ def run_flow(ctx, b, n):
     b.flush()
 
 
-RUNNERS = {'delete_schema': run_delete_schema, 'concat': run_concat, 'ejson_hook': run_ejson_hook, 'sortkey': run_sortkey, 'ejson': run_ejson, 'driver': run_driver, 'fields': run_fields, 'flow': run_flow, 'load': run_load, 'vloop': run_vloop, 'join': run_join, 'matcher': run_matcher, 'handlers': run_handlers, 'rows': run_rows}
+RUNNERS = {'select_schema': run_select_schema, 'delete_schema': run_delete_schema, 'concat': run_concat, 'ejson_hook': run_ejson_hook, 'sortkey': run_sortkey, 'ejson': run_ejson, 'driver': run_driver, 'fields': run_fields, 'flow': run_flow, 'load': run_load, 'vloop': run_vloop, 'join': run_join, 'matcher': run_matcher, 'handlers': run_handlers, 'rows': run_rows}
 
 
 def run(ctx, groups=None, n=None):
